@@ -581,3 +581,91 @@ Example task_arrival_order_nonvacuous :
   map t_unit (tasks (st_of ex_cfg (tr1 ++ tr2))) = [0; 1] /\
   map qmem (accepted (st_of ex_cfg tr1) tr2) = [(false, [([50%N], ex_m, [])])].
 Proof. vm_compute. repeat split; auto. discriminate. Qed.
+
+(** * "no stop so far" read off the state: the counter of stopLocked executions *)
+Fixpoint stop_count (s : state) (tr : list label) : nat :=
+  match tr with
+  | [] => 0
+  | l :: r => match step s l with
+              | Some (s1, _) => (if stop_window s s1 then 1 else 0) + stop_count s1 r
+              | None => 0
+              end
+  end.
+
+Lemma stop_free_count : forall tr s, stop_free s tr = true <-> stop_count s tr = 0.
+Proof.
+  induction tr as [|l r IH]; intros s; cbn; [tauto|].
+  destruct (step s l) as [[s1 os]|]; [|tauto].
+  rewrite andb_true_iff, IH. destruct (stop_window s s1); cbn; split; intros H; try lia; try tauto.
+Qed.
+
+Lemma settle1_closes s s' os : settle1 s = Some (s', os) -> closes s' = closes s.
+Proof.
+  intros H. apply settle1_inv in H. destruct H; cbn; auto.
+  unfold dequeue. destruct (inq s) as [|[b ms] q]; [destruct (running s)|]; reflexivity.
+Qed.
+
+Lemma settle_closes : forall fuel s acc s' os, settle fuel s acc = (s', os) -> closes s' = closes s.
+Proof.
+  induction fuel as [|f IH]; cbn; intros s acc s' os H.
+  - injection H as <- _. auto.
+  - destruct (settle1 s) as [[s1 os1]|] eqn:E.
+    + rewrite (IH _ _ _ _ H). eapply settle1_closes; eauto.
+    + injection H as <- _. auto.
+Qed.
+
+Lemma closes_raw s l s1 os : inv s -> step_raw s l = Some (s1, os) ->
+  closes s1 = closes s + (if stop_window s s1 then 1 else 0).
+Proof.
+  intros I H.
+  assert (Same : running s1 = running s -> closes s1 = closes s ->
+                 closes s1 = closes s + (if stop_window s s1 then 1 else 0)).
+  { intros Rn Cl. unfold stop_window. rewrite Rn, andb_negb_r. lia. }
+  pose proof (raw_ctl _ _ _ _ I H) as Ce.
+  destruct Ce as [El Rn Wg Es|c0 s0 s2 Sc Rn Hs0 P Es|f0 El Rd Rn Es|f0 i0 El Rd Hf Rn S5 C0 Ri Wa Hq|El D Es|u0 El D Es
+                 |u0 un s2 El Eu Su Es2 Es|S5 Cp Wa Hx Lt].
+  - subst s1. unfold stop_window. rewrite Rn. cbn. lia.
+  - assert (Q : running s1 = false /\ closes s1 = S (closes s)).
+    { destruct P. destruct Es as [->|(_ & ->)]; destruct Hs0 as [->|(n' & ->)]; cbn in *; auto. }
+    destruct Q as [Q1 Q2]. unfold stop_window. rewrite Rn, Q1. cbn. lia.
+  - subst s1. apply Same; auto.
+  - destruct S5 as (A1 & _ & _ & A4 & _). apply Same; auto.
+  - subst s1. apply Same; [apply dequeue_running|].
+    unfold dequeue. destruct (inq s) as [|[b ms] q]; [destruct (running s)|]; reflexivity.
+  - subst s1. apply Same; auto.
+  - pose proof (nontask_same5 _ _ (nontask_release (unit_tasks s u0) s)) as (A1 & _ & _ & A4 & _).
+    rewrite <- Es2 in *. destruct Es as [(_ & ->)|(_ & ->)]; apply Same; cbn; auto.
+  - destruct S5 as (A1 & _ & _ & A4 & _). apply Same; auto.
+Qed.
+
+Lemma closes_step c s l s' os : reachf c s -> step s l = Some (s', os) ->
+  closes s' = closes s + (if stop_window s s' then 1 else 0).
+Proof.
+  intros R H. pose proof (reachf_inv _ _ R) as I.
+  apply step_decompose in H as (_ & s1 & os1 & Hr & [(_ & -> & _)|(_ & Hs)]).
+  - eapply closes_raw; eauto.
+  - unfold stop_window. rewrite (settle_running _ _ _ _ _ Hs), (settle_closes _ _ _ _ _ Hs).
+    eapply closes_raw; eauto.
+Qed.
+
+Lemma closes_run c : forall tr s s' oss, reachf c s -> run s tr = Some (s', oss) ->
+  closes s' = closes s + stop_count s tr.
+Proof.
+  induction tr as [|l r IH]; cbn; intros s s' oss R H.
+  - injection H as <- _. lia.
+  - destruct (step s l) as [[s1 os]|] eqn:E; [|discriminate].
+    destruct (run s1 r) as [[s2 oss2]|] eqn:E2; [|discriminate]. injection H as <- _.
+    rewrite (IH _ _ _ (step_reachf _ _ _ _ _ R E) E2), (closes_step _ _ _ _ _ R E). lia.
+Qed.
+
+(* the run has no stop window iff stopLocked never closed the channel: closes = 0 at the end *)
+Theorem stop_free_iff_closes c tr s oss : run (init_of c) tr = Some (s, oss) ->
+  (stop_free (init_of c) tr = true <-> closes s = 0).
+Proof.
+  intros H. rewrite stop_free_count. rewrite (closes_run c tr _ _ _ (rf_init c) H). cbn. tauto.
+Qed.
+
+(* the FIFO theorem with the hypothesis read off the final state *)
+Theorem units_are_accepted_fifo_closes c tr s oss : run (init_of c) tr = Some (s, oss) -> closes s = 0 ->
+  unit_hist s ++ map qmem (inq s) = map qmem (accepted (init_of c) tr).
+Proof. intros H Z. apply (units_are_accepted_fifo c tr s oss H). apply (stop_free_iff_closes c tr s oss H). auto. Qed.
